@@ -2,7 +2,7 @@ From GV Require Import Base.Grammar Base.Analyses LR.Automaton LR.Validator LR.S
 From GV Require Import Common.Outcome LR.CloseMirror LR.CloseSpec C02.Model C02.Spec C02.Proofs.
 From GV Require Import C02.PagerSpec C02.PagerProofsPath C02.PagerProofsBridge C02.PagerProofsExists C02.PagerProofsMisc C02.PagerProofsMain.
 From GV Require Import C02.Lr1Model C02.Lr1Spec C02.Lr1Proofs.
-From GV Require Import Base.AnalysesProofs C02.LoopModel C02.LoopSpec C02.LoopProofs.
+From GV Require Import Base.AnalysesProofs C02.LoopModel C02.LoopSpec C02.LoopProofs C02.LoopEdgeProofs C02.LoopPanicProofs.
 
 Theorem C02_validated_automata_agree : validated_automata_agree_stmt.
 Proof. exact validated_automata_agree. Qed.
@@ -139,3 +139,19 @@ Print Assumptions C02_pager_mirror_conflict_free.
 Theorem C02_pager_mirror_certified : pager_mirror_certified_stmt.
 Proof. exact pager_mirror_certified. Qed.
 Print Assumptions C02_pager_mirror_certified.
+
+(* ... and its graph is closed under goto up to inclusion of contexts: state 0 is the start kernel, every non-empty goto has its edge to a state whose core includes it, and there is no other edge *)
+
+Theorem C02_pager_mirror_edges_complete : pager_mirror_edges_complete_stmt.
+Proof. exact pager_mirror_edges_complete. Qed.
+Print Assumptions C02_pager_mirror_edges_complete.
+
+Theorem C02_pager_mirror_edges_sound : pager_mirror_edges_sound_stmt.
+Proof. exact pager_mirror_edges_sound. Qed.
+Print Assumptions C02_pager_mirror_edges_sound.
+
+(* ... and none of the panic sites of pager_stategraph (indexing, unwrap, usize subtraction) is reachable; only the deliberate StorageT size checks remain *)
+
+Theorem C02_pager_mirror_never_panics : pager_mirror_never_panics_stmt.
+Proof. exact pager_mirror_never_panics. Qed.
+Print Assumptions C02_pager_mirror_never_panics.
